@@ -35,6 +35,50 @@ PROPS["C20"] = {
     ],
 }
 
+_INTS = ["i8", "i16", "i32", "i64", "isize", "u8", "u16", "u32", "u64", "usize",
+         "nzi8", "nzi16", "nzi32", "nzi64", "nzisize", "nzu8", "nzu16", "nzu32", "nzu64", "nzusize"]
+_c07 = []
+for _t in _INTS:
+    _c07 += [
+        H("c07::c07_accepts_%s" % _t, crate="hm", unwind=3, stubs=[FMT],
+          bounds="every serde_json::Number: From<i64> (all i64), From<u64> (all u64), from_f64 (all finite f64)",
+          assumes=["f64 input finite (serde_json cannot represent non-finite numbers)"]),
+        H("c07::c07_valid_%s" % _t, crate="hm", unwind=3, stubs=[FMT], bounds="every serde_json::Number (as above)"),
+        H("c07::c07_rt_%s" % _t, crate="hm", unwind=3, stubs=[FMT], bounds="every value of the Rust type"),
+        H("c07::c07_kinds_%s" % _t, crate="hm", unwind=3, stubs=[FMT],
+          bounds="Null, Boolean(any), String(\"\"), String(1 ASCII byte, any), List([]), Binary([])"),
+    ]
+_c07 += [
+    H("c07::c07_f64_accepts", crate="hm", unwind=3, stubs=[FMT], bounds="every serde_json::Number"),
+    H("c07::c07_f32_accepts", crate="hm", unwind=3, stubs=[FMT], bounds="every serde_json::Number"),
+    H("c07::c07_f64_roundtrip", crate="hm", unwind=3, stubs=[FMT], bounds="every f64 bit pattern (NaN/inf: no panic only)"),
+    H("c07::c07_f32_roundtrip", crate="hm", unwind=3, stubs=[FMT], bounds="every f32 bit pattern (NaN/inf: no panic only)"),
+    H("c07::c07_float_other_kinds", crate="hm", unwind=3, stubs=[FMT], bounds="Null, Boolean(any), String(\"\"), List([]) for f32 and f64"),
+    H("c07::c07_bool", crate="hm", unwind=3, stubs=[FMT], bounds="both booleans; every Number, Null, String(\"\") rejected"),
+    H("c07::c07_char_roundtrip", crate="hm", unwind=6, stubs=[FMT], bounds="every Unicode scalar value"),
+    H("c07::c07_char_accepts", crate="hm", unwind=6, stubs=[FMT], bounds="strings of 0..=2 scalar values, <= 3 bytes; every Number; Null"),
+    H("c07::c07_string", crate="hm", unwind=6, stubs=[FMT], bounds="ASCII strings of 0..=3 bytes; every Number, Boolean, Null rejected"),
+    H("c07::c07_id", crate="hm", unwind=6, stubs=[FMT], bounds="ASCII strings of 0..=2 bytes; Boolean, Null, every finite float rejected"),
+]
+PROPS["C07"] = {
+    "title": "built-in scalars accept exactly their domain and round-trip",
+    "files": ["src/types/external/integers.rs", "src/types/external/non_zero_integers.rs", "src/types/external/floats.rs",
+              "src/types/external/bool.rs", "src/types/external/char.rs", "src/types/external/string.rs", "src/types/id.rs",
+              "src/error.rs"],
+    "funcs": ["<T as ScalarType>::parse / is_valid / to_value for T in i8..i64, isize, u8..u64, usize, NonZero* of each, f32, f64, "
+              "bool, char, String, ID"],
+    "claim": "for each of the 20 integer scalar instantiations and EVERY serde_json::Number (all i64, all u64, all finite f64): "
+             "parse returns Ok(v) iff the number is an integer in the type's mathematical range (and != 0 for NonZero) and then v "
+             "equals it; is_valid never refuses a number parse accepts; parse(to_value(v)) == v for every v; values of other kinds "
+             "are rejected. f32/f64: every Number is accepted with its f64 reading, every finite float round-trips bit-exactly, "
+             "non-finite floats never panic. bool, char (every Unicode scalar value), String and ID likewise (strings <= 3 bytes)",
+    "not_covered": "derived enums (parse_enum needs the enum's item table and string comparison loops beyond the bound), optional-feature "
+                   "scalars (chrono, uuid, ...); f32 overflow to infinity for |x| > f32::MAX is accepted by the code and not asserted on; "
+                   "strings longer than 3 bytes; Enum/Object kinds offered to scalars",
+    "assumptions": ["serde_json is built without arbitrary_precision (Cargo.lock feature set of the pinned tree)"],
+    "harnesses": _c07,
+}
+
 NOT_APPLICABLE = {
     "C01": "not yet claimed (leaf serialization kernels planned, see DESIGN.md section 4)",
     "C02": "dynamic execution: every mechanism (collect_fields, resolve) runs on a built dynamic::Schema and its Registry; schema construction alone exceeds what CBMC finishes (Schema::new > 25 min / 9 GB, DESIGN.md section 3)",
@@ -56,5 +100,5 @@ NOT_APPLICABLE = {
     "C34": "GraphiQL page: the oracle is a JavaScript/HTML tokenizer evaluating the generated page; rendering is askama-generated code over fmt with a dependency's HTML escaper",
     "C35": "GET never mutates: behaviour of five web-framework integrations' extractors (axum/actix/poem/warp/rocket request types, async I/O)",
 }
-for _p in ["C06", "C07", "C08", "C09", "C10", "C12", "C13", "C14", "C15", "C16", "C17", "C21", "C22", "C32", "C33"]:
+for _p in ["C06", "C08", "C09", "C10", "C12", "C13", "C14", "C15", "C16", "C17", "C21", "C22", "C32", "C33"]:
     NOT_APPLICABLE.setdefault(_p, "claim under construction in this session (harnesses planned in DESIGN.md section 4); listed here until its check is registered")
